@@ -3,6 +3,9 @@ import itertools, os
 from vlib import core, pair
 
 
+TY = {'ndmap': 'size_t', 'ndmap8': 'uint8_t', 'ndmap16': 'uint16_t', 'ndmap32': 'uint32_t'}
+
+
 def gen_cases(chk):
     r = chk.rng
     thorough = chk.tier == 'thorough'
@@ -16,7 +19,16 @@ def gen_cases(chk):
         n = r.range(1, 5)
         cap = {1: 200, 2: 40, 3: 12, 4: 7, 5: 5}[n]
         cases.append((n, tuple(r.range(0, cap) for _ in range(n))))
-    return cases
+    # narrow index types for the extent tuple (the template takes any; the library's callers use size_t): boxes whose
+    # tuple COUNT is a multiple of 2^8 / 2^16 although every extent fits the type, and ordinary ones
+    typed = [('ndmap8', 2, (16, 16)), ('ndmap8', 2, (2, 128)), ('ndmap8', 3, (3, 8, 32)), ('ndmap8', 4, (4, 4, 4, 4)), ('ndmap8', 5, (3, 4, 4, 4, 4)),
+             ('ndmap8', 1, (255,)), ('ndmap8', 2, (15, 17)), ('ndmap8', 3, (7, 6, 6)), ('ndmap8', 3, (4, 8, 8)), ('ndmap8', 2, (0, 200)),
+             ('ndmap16', 2, (256, 256)), ('ndmap16', 4, (16, 16, 16, 16)), ('ndmap16', 2, (255, 257)), ('ndmap16', 3, (2, 3, 5)),
+             ('ndmap32', 3, (5, 7, 2)), ('ndmap32', 2, (300, 3))]
+    for _ in range(40 if thorough else 10):
+        n = r.range(1, 4)
+        typed.append((r.choice(['ndmap8', 'ndmap16', 'ndmap32']), n, tuple(r.range(0, {1: 200, 2: 40, 3: 12, 4: 7}[n]) for _ in range(n))))
+    return cases + [(n, s, k) for k, n, s in typed]
 
 
 def oracle(n, s, ans):
@@ -36,7 +48,7 @@ def oracle(n, s, ans):
 def run(replay=None):
     chk = core.Check('C19', 'proof')
     chk.cov['rule'] = ('every extent vector with extents in 0..3 for dimension 1..4 (0..2 for dimension 5) in the quick tier '
-                       '(0..5 / 0..3 in thorough) plus seeded random larger ones; the callback sequence of utility::nd_map is compared '
+                       '(0..5 / 0..3 in thorough) plus seeded random larger ones, with size_t indices as the library uses them; additionally extent tuples of uint8_t / uint16_t / uint32_t (boxes whose tuple count is a multiple of 2^8 / 2^16 among them); the callback sequence of utility::nd_map is compared '
                        'with the model sequence (equality) and judged by the property oracle (each tuple of the box exactly once); '
                        'non-trivial = at least two tuples visited; distinct by (dimension, extents)')
     chk.prove('Properties_C19.v')
@@ -55,29 +67,31 @@ def run(replay=None):
     cases = gen_cases(chk)
     if replay:
         import json
-        cases = [(c[0], tuple(c[1])) for c in json.load(open(replay)).get('replay', {}).get('cases', [])] or cases
-    lines = [f'{i} ndmap {n} ' + ' '.join(str(x) for x in s) for i, (n, s) in enumerate(cases)]
+        cases = [tuple([c[0], tuple(c[1])] + list(c[2:])) for c in json.load(open(replay)).get('replay', {}).get('cases', [])] or cases
+    cases = [(c[0], c[1], c[2] if len(c) > 2 else 'ndmap') for c in cases]
+    lines = [f'{i} {kd} {n} ' + ' '.join(str(x) for x in s) for i, (n, s, kd) in enumerate(cases)]
+    mlines = [f'{i} ndmap {n} ' + ' '.join(str(x) for x in s) for i, (n, s, kd) in enumerate(cases)]   # the model has one index type: unbounded
     model = {}
     if driver:
-        rc, model, err = pair.run_model(driver, lines)
+        rc, model, err = pair.run_model(driver, mlines)
         if rc:
             chk.obligation_broken('extracted model crashed', err)
     impl = {cfg: pair.run_impl_isolated(exe, lines) for cfg, exe in exes.items()}
     nd = 0
-    for i, (n, s) in enumerate(cases):
+    for i, (n, s, kd) in enumerate(cases):
         size = 1
         for e in s:
             size *= e
-        chk.count_case((n, s), size >= 2)
+        chk.count_case((n, s, kd), size >= 2)
         m = model.get(str(i))
         for cfg in impl:
             a = impl[cfg].get(str(i))
             if a is None or a.startswith(('CRASH', 'TIMEOUT', 'SKIPPED', 'EXCEPTION')):
-                chk.violation(f'nd_map dimension {n} fails', f'nd_map over extents {s} in build {cfg}: {a}', {'cases': [[n, list(s)]], 'impl': a, 'build': cfg})
+                chk.violation(f'nd_map dimension {n} fails', f'nd_map over extents {s} ({TY[kd]} indices) in build {cfg}: {a}', {'cases': [[n, list(s), kd]], 'impl': a, 'build': cfg})
                 continue
             why = oracle(n, s, a)
             if why:
-                chk.violation(f'nd_map dimension {n} wrong visit set', f'extents {s} in build {cfg}: {why}', {'cases': [[n, list(s)]], 'impl': a[:2000], 'model': (m or '')[:2000], 'build': cfg})
+                chk.violation(f'nd_map dimension {n} wrong visit set', f'extents {s} ({TY[kd]} indices) in build {cfg}: {why}', {'cases': [[n, list(s), kd]], 'impl': a[:2000], 'model': (m or '')[:2000], 'build': cfg})
             elif m is not None and a != m:
                 nd += 1
                 if nd <= 5:
